@@ -36,7 +36,9 @@ unsigned short g_s0, g_s1;
 
 #define POST(X) \
 	X(RET == NEED * 2) \
-	X(IMP(hexoct, D[0] == chr)) \
+	X(IMP(hexoct && chr <= 0xFFFF, D[0] == chr)) \
+	/* 6.4.4.4p9: a value that is not representable in the element type must have been diagnosed, not stored (truncated) */ \
+	X(IMP(hexoct, chr <= 0xFFFF)) \
 	X(IMP(!hexoct, D[0] == spec_utf16_unit(chr, 0))) \
 	X(IMP(!hexoct && NEED > 1, D[1] == spec_utf16_unit(chr, 1))) \
 	X(IMP(g_avail > 1 && NEED <= 1, D[1] == g_s1)) \
